@@ -15,7 +15,7 @@ from ..frontend import Program, norm_text
 from ..poly import p_add, p_const, p_mul, p_neg, p_pow, show, to_poly
 from ..report import Instance, Report
 from .c09 import _heads, opaque_setup
-from .harness import parallel_map, run_op
+from .harness import parallel_map, run_op, valeq_instances
 from .symm import find_calls, is_cdf
 
 from fractions import Fraction
@@ -70,6 +70,12 @@ def _job(idx: int) -> List[Dict[str, Any]]:
         if oc.undecided or not oc.returned or oc.raises:
             inst("R11.1", "UNDECIDED" if oc.undecided else "VIOLATED", nm, "; ".join(oc.undecided[:3]) or f"{nm} does not return normally (raises {[e.data['exc'] for e in oc.raises]})")
             return out
+    # ---- R11.5 teams are positions, not values
+    ve = valeq_instances(rk, "R11.5", "so identical teams lose pair terms and the identity predict_rank + predict_draw = 1 fails") + valeq_instances(rk2, "R11.5", "so identical teams lose pair terms")
+    out.extend(ve)
+    if ve:
+        return out
+    inst("R11.5", "HOLDS", "no test on the value equality of teams or ratings")
     # ---- R11.3 shape and alignment (both classes)
     for oc, case in ((rk, "3..8 teams"), (rk2, "2 teams")):
         I, st = oc.I, oc.world.state
